@@ -77,6 +77,11 @@ type Sched struct {
 	prologue        bool        // the scenario's set-up is running (as model thread "setup"): default choices only, nothing recorded
 	afterPrologue   bool        // the next scheduling decision is the first one of the concurrent phase (free)
 	proSteps        int
+	final           func(x *Exec)
+	finalStarted    bool
+	joinTok         int // see runThread / startFinal
+	FinalRan        bool // the final observation ran to its end inside the execution
+	FinalStuck      bool // it was started and could not finish (it blocked for ever)
 	abortFn         func() bool
 	TimedOut        bool
 	unheld          int              // threads that exist and are not held (set-up phase fast path)
@@ -234,6 +239,7 @@ func (s *Sched) runThread(t *Thread, f func()) {
 				// the thread left through runtime.Goexit (e.g. t.FailNow inside an action): it is
 				// finished like any other, the baton goes on
 				t.done = true
+				raceReleaseAddr(unsafe.Pointer(&s.joinTok))
 				s.switchFrom(t)
 			}
 			return
@@ -255,6 +261,11 @@ func (s *Sched) runThread(t *Thread, f func()) {
 	f()
 	returned = true
 	t.done = true
+	raceReleaseAddr(unsafe.Pointer(&s.joinTok)) // everything a finished thread did happens-before the final observation
+	if t.Name == finalName {
+		s.finish() // the final observation is over: so is the execution
+		return
+	}
 	if t.Name == setupName && s.prologue {
 		s.endPrologue()
 	}
@@ -446,13 +457,14 @@ func (s *Sched) switchFrom(t *Thread) {
 			break
 		}
 	}
-	if allDone {
+	if allDone && !s.startFinal() {
 		s.finish()
 		if t.done {
 			return
 		}
 		panic(abortSentinel)
 	}
+retry:
 	var en [24]*Thread
 	enabled := en[:0]
 	runEnabled := false
@@ -525,7 +537,9 @@ func (s *Sched) switchFrom(t *Thread) {
 		}
 	}
 	if len(enabled) == 0 {
-		s.quiescent()
+		if s.quiescent() {
+			goto retry // the final observation has been started as one more thread
+		}
 		if t.done {
 			return
 		}
@@ -579,7 +593,17 @@ const idleRounds = 32
 // for a ticker) are not blocked, they are idle.
 //
 //go:norace
-func (s *Sched) quiescent() {
+func (s *Sched) quiescent() (finalStarted bool) {
+	if s.finalStarted {
+		// quiescent again, after (or inside) the final observation
+		for _, x := range s.threads {
+			if x.Name == finalName && !x.done {
+				s.FinalStuck = true
+			}
+		}
+		s.finish()
+		return false
+	}
 	for _, x := range s.threads {
 		if !x.done && !x.daemon && x.pend != nil && !s.idleForever(x) {
 			s.Blocked = append(s.Blocked, fmt.Sprintf("T%d(%s) blocked at %s", x.ID, x.Name, x.pend.Kind))
@@ -589,7 +613,42 @@ func (s *Sched) quiescent() {
 	// for its next request, a worker pool) after every thread of the scenario has finished are a leak at
 	// worst, not a deadlock: nobody is waiting for them. They stay listed in Blocked.
 	s.Deadlock = len(s.Blocked) > 0 && !s.harnessDone()
+	if s.startFinal() {
+		return true
+	}
 	s.finish()
+	return false
+}
+
+const finalName = "final-observation"
+
+// SetFinal registers the scenario's final observation (its oracle reading the object under test through
+// the public API). It runs as one more model thread when the execution has come to its end - every
+// thread finished, or nothing can run any more - with default answers at every choice and nothing
+// recorded, like the set-up: goroutines the code under test keeps for itself (a server goroutine that owns
+// the state, an owner started on demand) are still alive then, and whatever the observation starts is
+// torn down with the execution instead of running on into the next one.
+//
+//go:norace
+func (s *Sched) SetFinal(f func(x *Exec)) { s.final = f }
+
+// startFinal starts the final observation once; false if there is none or it has been started before.
+//
+//go:norace
+func (s *Sched) startFinal() bool {
+	if s.final == nil || s.finalStarted || s.aborting {
+		return false
+	}
+	s.finalStarted = true
+	x := &Exec{Deadlock: s.Deadlock, Blocked: append([]string{}, s.Blocked...), Steps: s.Steps, NoBlockViolated: s.NoBlockViolated, Points: s.Points}
+	s.prologue = true // default answers, nothing recorded, steps not counted
+	f := s.final
+	s.spawn(finalName, func() {
+		raceAcquireAddr(unsafe.Pointer(&s.joinTok))
+		f(x)
+		s.FinalRan = true
+	}, false)
+	return true
 }
 
 // Point parks the running thread at a visible operation and returns when the
@@ -833,6 +892,18 @@ func IdleWakes() int {
 	return 0
 }
 
+// Recover is wrapped around every recover() of the code under test: the sentinel with which the
+// scheduler unwinds the threads of a finished execution goes on unwinding, everything else is handed to
+// the code as usual.
+//
+//go:norace
+func Recover(v any) any {
+	if _, ok := v.(abortT); ok {
+		panic(v)
+	}
+	return v
+}
+
 // SleepPoint is the model of time.Sleep: like Gosched it offers the turn to everybody else (a loop
 // that sleeps between attempts is a polite waiting loop).
 //
@@ -873,17 +944,18 @@ func Self() int {
 
 // Exec is the outcome of one execution.
 type Exec struct {
-	TimedOut bool // abandoned because RunConfig.Abort said so (nothing about it is judged)
-	Choices  []int
-	Points   []Point
-	Deadlock bool
-	Blocked  []string
-	Panic    string
-	Livelock bool
-	Pruned   bool
-	Steps    int
-	Races    int
-	Trace    []string
+	FinalRan, FinalStuck bool // see Sched.SetFinal
+	TimedOut             bool // abandoned because RunConfig.Abort said so (nothing about it is judged)
+	Choices              []int
+	Points               []Point
+	Deadlock             bool
+	Blocked              []string
+	Panic                string
+	Livelock             bool
+	Pruned               bool
+	Steps                int
+	Races                int
+	Trace                []string
 	// NoBlockViolated describes a thread that was disabled while it had declared (NoBlock)
 	// that it must not be.
 	NoBlockViolated string
@@ -938,7 +1010,7 @@ func Run(cfg RunConfig, body func(s *Sched)) *Exec {
 	s.wg.Wait()
 	cur = nil
 	raceJoin()
-	x := &Exec{TimedOut: s.TimedOut, Points: s.Points, Deadlock: s.Deadlock, Blocked: s.Blocked, Panic: s.Panic, Livelock: s.Livelock, Pruned: s.Pruned, Steps: s.Steps, Trace: s.Trace, NoBlockViolated: s.NoBlockViolated}
+	x := &Exec{FinalRan: s.FinalRan, FinalStuck: s.FinalStuck, TimedOut: s.TimedOut, Points: s.Points, Deadlock: s.Deadlock, Blocked: s.Blocked, Panic: s.Panic, Livelock: s.Livelock, Pruned: s.Pruned, Steps: s.Steps, Trace: s.Trace, NoBlockViolated: s.NoBlockViolated}
 	x.Choices = make([]int, len(s.Points))
 	for i, p := range s.Points {
 		x.Choices[i] = p.Chosen
